@@ -243,7 +243,7 @@ func (r *Runner) setVar(name string, vr expand.Variable) {
 	}
 }
 
-func (r *Runner) setVarWithIndex(prev expand.Variable, name string, index syntax.ArithmExpr, vr expand.Variable) {
+func (r *Runner) setVarWithIndex(prev expand.Variable, name string, index syntax.ArithmExpr, vr expand.Variable, appendElem bool) {
 	if vr.Kind == expand.String && index == nil {
 		// When assigning a string to an array, fall back to the
 		// zero value for the index.
@@ -290,6 +290,9 @@ func (r *Runner) setVarWithIndex(prev expand.Variable, name string, index syntax
 		if prev.Map == nil {
 			prev.Map = make(map[string]string)
 		}
+		if appendElem {
+			valStr = prev.Map[k] + valStr
+		}
 		prev.Map[k] = valStr
 		prev.Set = true
 		r.setVar(name, prev)
@@ -302,6 +305,16 @@ func (r *Runner) setVarWithIndex(prev expand.Variable, name string, index syntax
 			r.errf("%s: bad array subscript\n", name)
 			r.exit.code = 1
 			return
+		}
+	}
+	if appendElem {
+		// name[k]+=value appends to the element, which counts as empty if unset.
+		if indexes == nil {
+			if k < len(list) {
+				valStr = list[k] + valStr
+			}
+		} else if pos, ok := slices.BinarySearch(indexes, k); ok {
+			valStr = list[pos] + valStr
 		}
 	}
 	list, indexes = internal.SetIndexedElem(list, indexes, k, valStr)
@@ -406,7 +419,8 @@ func (r *Runner) assignVal(name string, prev expand.Variable, as *syntax.Assign,
 	prev.Set = true
 	if as.Value != nil {
 		s := r.literal(as.Value)
-		if !as.Append {
+		if !as.Append || as.Index != nil {
+			// For name[k]+=value, the caller appends to the element.
 			prev.Kind = expand.String
 			if valType == "-n" {
 				prev.Kind = expand.NameRef
